@@ -171,7 +171,7 @@ func executeCart(id string, sc *engine.Scenario, focus string) *engine.Result {
 		return res
 	}
 	m.Write(0xff40, 0)
-	m.Park()
+	park(sc, m, res)
 	ct := dmgref.NewCart(img)
 	kind := ct.Kind
 	dg := engine.NewDigest()
